@@ -4,7 +4,9 @@ from contracts import channel
 ID = "C21"
 C = "paramiko.channel.Channel."
 TARGETS = [C + "_feed", C + "_feed_extended", C + "set_combine_stderr"]
-REPLAY = {"BufferedPipe": "c26.replay_pipe", "*": "c21.replay_streams"}
+REPLAY = {"BufferedPipe": "c26.replay_pipe", "*": "c21.replay_streams",
+          "the_move_happens_inside_the_critical_section": "c21.schedule_feed_between_empty_and_move",
+          "routing_decision_and_delivery_under_the_channel_lock": "c21.schedule_switch_between_decision_and_delivery"}
 
 
 B = "paramiko.buffered_pipe.BufferedPipe."
@@ -38,13 +40,13 @@ LEVEL_TEXT = ("Proof over ghost byte streams (stdout / stderr as fed so far) on 
               "set_combine_stderr returns the previous setting, installs the new one and, when switching on, moves exactly "
               "the still unread stderr bytes to the end of the stdout stream. Together with C26 (each buffer is a lossless "
               "FIFO, partial reads included), C19/C20 (window accounting) and the per-channel dispatch of C12/C15's loop "
-              "fragment, the bytes read are the bytes fed, per stream, in order. One obligation fails on the pinned tree "
-              "and is a listed known finding: the move happens after the lock is released.")
-LEVEL_NOTE = ("Known finding (not repaired: the repair changes locking order between Channel.lock and BufferedPipe's lock): "
-              "stderr data that arrives between emptying the stderr buffer and feeding stdout lands ahead of the older data; "
-              "schedule replayed by harness c21.schedule_feed_between_empty_and_move. BufferedPipe.feed / empty are used "
+              "fragment, the bytes read are the bytes fed, per stream, in order. The switch-and-move of "
+              "set_combine_stderr and the decide-and-deliver of _feed_extended are each one critical section of the channel lock.")
+LEVEL_NOTE = ("Repaired defect (fix: commit, see known_findings.json): the move used to happen after the lock was released, so "
+              "stderr data arriving in the gap landed ahead of the older data; schedules replayed by harness "
+              "c21.schedule_feed_between_empty_and_move / schedule_switch_between_decision_and_delivery. BufferedPipe.feed / empty are used "
               "through contracts here (verified against their bodies under C26, which is part of this check's command "
               "through the shared targets below). Exit status: Channel._handle_request stores the peer's value (C18 "
               "verifies that function's other branches); the harness replays it. Cross-channel isolation: handlers touch "
               "only their own channel object (frame conditions), channels are looked up by id (C23).")
-TECHNIQUE = "deductive: ghost stream postconditions on the real AST, monitor rule, z3; known-finding filter with native witness"
+TECHNIQUE = "deductive: ghost stream postconditions on the real AST, monitor rule and lock-held ghost monitors, z3; native schedule replay"
